@@ -44,8 +44,21 @@ static void ns_create (unsigned value)
 {
 	SEM_INC (g_next_id); ns_id = g_next_id; ns_value = value; ns_exists = 1;
 }
+/* first-open race (C07): a second process that has already opened the segment this process just created runs its
+ * own "open the lock, create it if missing" step (sem_open with O_CREAT, value 1) at some point between this
+ * process's semaphore system calls, and keeps the handle it got */
+_Bool          g_peer_opener;   /* race unit switch */
+_Bool          g_peer_holds;    /* the peer has opened the lock ... */
+unsigned long  g_peer_id;       /* ... and its handle is bound to this counter */
+static void peer_open_step (void)
+{
+	if (!g_peer_opener || g_peer_holds || !nondet_bool ()) return;
+	if (!ns_exists) ns_create (1);
+	g_peer_holds = 1; g_peer_id = ns_id;
+}
 static void env_sem_step (void)
 {
+	peer_open_step ();
 	/* another process: an owner frees (unlink), or someone (re-)creates the name with any value, or posts/waits */
 	if (!g_env_active || !nondet_bool ()) return;
 	if (ns_exists) { if (nondet_bool ()) ns_unbind (); else ns_value = nondet_uint (); }
